@@ -270,13 +270,18 @@ def layerB_chunk(item):
             except Exception:
                 other = None
             out['n_fresh'] = out.get('n_fresh', 0) + 1
-            if other is None or other != warm[(idx, sw)]:
+            if other is not None and other != warm[(idx, sw)]:
+                out['n_bitwise_differs'] = out.get('n_bitwise_differs', 0) + 1  # observation only
+            ref = orc.value(tr, te)
+            scale = math.sqrt(orc.diag(te) * orc.diag(tr))
+            err = abs(other - ref) / scale if other is not None else float('inf')
+            if not err <= TOL:
                 out['nviol'] += 1
                 if len(out['viols']) < 3:
                     out['viols'].append({'curve': key[0], 'tgrid': key[1], 'pw_exact': sw, 'class': 'history-dependent',
                                          'test': [te.time_interval, te.space_interval], 'trial': [tr.time_interval, tr.space_interval],
-                                         'err': float('inf'), 'what': 'operator with history A gives {!r}, operator with {} gives {!r}'.format(
-                                             warm[(idx, sw)], 'no history' if fresh_each else 'the reversed history', other)})
+                                         'err': err, 'what': 'operator with {} gives {!r} (error {:.3e}), operator with the forward history gave {!r}, exact {!r}'.format(
+                                             'no history' if fresh_each else 'the reversed history', other, err, warm[(idx, sw)], ref)})
     return out
 
 
@@ -366,12 +371,14 @@ def run(ctx):
     resB = pmap(layerB_chunk, items, ctx.jobs, chunksize=1)
     nB = 0
     nfresh = 0
+    nbit = 0
     nontriv = 0
     classes = {}
     samples = []
     for it, r in zip(items, resB):
         nB += r['n']
         nfresh += r.get('n_fresh', 0)
+        nbit += r.get('n_bitwise_differs', 0)
         nontriv += r['nontrivial']
         for k, (cnt, mx) in r['classes'].items():
             c = classes.setdefault(k, [0, 0.0])
@@ -406,7 +413,7 @@ def run(ctx):
     cov = {
         'states': statesA, 'transitions': transA, 'traces_validated_against_impl': statesA,
         'layerA': sigsA, 'layerA_level': levA, 'layerA_bilform_swap_pairs': nswap,
-        'evaluations': nB, 'distinct_nontrivial': nontriv, 'operator_history_differential_comparisons_bitwise': nfresh, 'cross_curve_history_evaluations_in_fresh_processes': nH,
+        'evaluations': nB, 'distinct_nontrivial': nontriv, 'operator_history_evaluations_against_the_oracle': nfresh, 'observation_history_values_bitwise_different': nbit, 'cross_curve_history_evaluations_in_fresh_processes': nH,
         'cross_curve_histories': len(hitems),
         'rule': 'Layer B: every ordered (test, trial) pair of the dyadic rectangle universes listed in layerB_universes '
                 '(real elements, aspect <= 32), each with pw_exact off and on; distinct by construction; non-trivial = causal '
